@@ -25,7 +25,7 @@ PROP = dict(
                  "external GNU tar, head and sh are present; the harness runs as root so tar restores modes exactly",
                  "which archive is restored first follows Go map iteration inside Restore; the verdicts do not depend on it, the non-trivial share does (failing cases are attempted twice)"],
     engines=[
-        gt("import", "overlord/snapshotstate/backend", "TestVerifC32Import", dict(checks=1500, shards=2), dict(checks=15000, shards=8)),
+        gt("import", "overlord/snapshotstate/backend", "TestVerifC32Import", dict(checks=1500, shards=2), dict(checks=8000, shards=8)),
         gt("restore", "overlord/snapshotstate/backend", "TestVerifC32Restore", dict(checks=25, shards=4), dict(checks=150, shards=8)),
     ],
 )
